@@ -345,6 +345,10 @@ class MolQueryReader(object):
         except Exception:
             msg = 'Atom Label '+tree[2][1]+' not found'
             raise RINGReaderError(msg)
+        if idx1 == idx2 or molquery.mol.GetBondBetweenAtoms(idx1, idx2):
+            msg = 'Ring bond between ' + tree[0][1] + ' and ' + tree[2][1] +\
+                ' joins an atom to itself or repeats an existing bond'
+            raise RINGReaderError(msg)
         self.ReadBondTypeBondedAtom(idx1, idx2, bondtype, molquery)
 
     def ReadStereoDoubleBond(self, tree, molquery):
